@@ -49,7 +49,28 @@
                                            non-absolute child, are independent of the absolute children's styles and of the answers to
                                            the queries addressed to them -- no longer a premise for flex containers
      C06_blockflex_engine_instance         hence the conclusion of C06_abs_blind_engine for every engine whose nodes are block containers,
-                                           flex containers or leaves *)
+                                           flex containers or leaves
+   GRID ALGORITHM as a resumption (Model/GridAlg.v: all of compute_grid_layout over the engine interface; tied to the implementation
+   event by event, bit for bit, by `vh gridalg cases`):
+     C06_grid_algorithm_abs_blind_refuted  full AbsBlind is FALSE for it: the known finding C06/grid-estimate-absolute on the level of the
+                                           whole algorithm -- `grid-auto-rows: 7px` with one absolute child on grid_row 4 / a bare absolute
+                                           child / no child returns heights 28 / 7 / 0 (`vh gridalg witness abs` on the implementation)
+     C06_grid_algorithm_abs_blind_lines    the strongest true complement: for ANY class of box-generating absolute children, two child lists
+                                           that agree except at children of the class, where both sides are in the class and have the SAME
+                                           grid_row / grid_column, give bisimilar resumptions (ABis): the algorithm is blind to everything
+                                           about an absolute child -- its whole subtree, sizes, insets, margins, alignment -- except its
+                                           grid placement lines; in particular AbsBlind holds for ab = "box-generating, absolute, on lines
+                                           (r, c)", for every r, c (auto / auto included)
+     C06_grid_engine_instance              hence the conclusion of C06_abs_blind_engine for every engine of grid containers and leaves, for
+                                           the absolute nodes of any one line class
+   KEYED engine theorem (Proofs/EngineAbsKey.v: Proofs/EngineAbs.v with a `key` = what a parent may read of an out-of-flow child's style):
+     C06_abs_blind_engine_keyed            for every algorithm that is AbsBlindK: trees that coincide up to oeq / leq outside the subtrees of
+                                           out-of-flow nodes WHOSE KEYS AGREE stay so through any evaluation; AbsBlind implies AbsBlindK
+     C06_grid_algorithm_abs_blind_keyed    the grid algorithm is AbsBlindK for ALL box-generating absolute children, key = (grid_row, grid_column)
+     C06_taffy_engine_instance             hence, for every engine whose nodes are block, flex, grid containers or leaves (every kind
+                                           TaffyView::compute_child_layout dispatches on): replacing the subtree and the style of box-generating
+                                           absolute nodes by anything absolute with the same grid lines changes nothing outside those subtrees but
+                                           content sizes -- C06 for all of taffy, up to exactly the known finding (the lines) *)
 From Coq Require Import List Bool Arith NArith ZArith Lia.
 From TV Require Import Num.Num Gen.BlockGen Model.Block Model.BlockLeaf Model.BlockTree Proofs.BlockBlind.
 From TV Require Import Model.FiltersBase Gen.FiltersGen Model.ItemFilters Proofs.ItemFiltersBase Proofs.ItemFiltersAbs Model.BlockAlg Proofs.BlockAlgBlind.
@@ -606,6 +627,128 @@ Proof.
   - apply blockflex_algo_abs_blind. exact Hloc.
 Qed.
 
+(* ---------------------------------------------------------------------------------------------- the grid algorithm *)
+From TV Require Import Num.QNum Gen.GridTracksGen Model.GridTracks Model.GridAlgBase Model.GridAlg Model.TaffyEngine.
+From TV Require Import Proofs.GridAlgVisits Proofs.GridAlgBlind Proofs.TaffyEngine.
+
+(* full AbsBlind fails: the size estimate of the implicit grid reads the absolute children's lines, and even counts a bare absolute
+   child.  gab_container = `display:grid; grid-auto-rows: 7px`; gab_child4 = a bare absolute child with grid_row: 4 / auto;
+   gab_child_bare = a bare absolute child.  The two lists are related by `arel` for ab = box-generating absolute, the resumptions
+   return at once (ComputeSize) with heights 28 and 7 -- and 0 without any child. *)
+Theorem C06_grid_algorithm_abs_blind_refuted :
+  Forall2 (arel (GStyle XQ) g_visible_absolute) [gab_child4] [gab_child_bare] /\
+  ret_height (grid_alg gab_container [gab_child4] (gab_input Engine.ComputeSize)) = Some (xq 28) /\
+  ret_height (grid_alg gab_container [gab_child_bare] (gab_input Engine.ComputeSize)) = Some (xq 7) /\
+  ret_height (grid_alg gab_container [] (gab_input Engine.ComputeSize)) = Some (xq 0) /\
+  ~ ABis (GIn XQ) (LayoutOutput XQ) (GLay XQ) gout_eq glay_eq (abmask (GStyle XQ) g_visible_absolute [gab_child4])
+         (grid_alg gab_container [gab_child4] (gab_input Engine.ComputeSize)) (grid_alg gab_container [gab_child_bare] (gab_input Engine.ComputeSize)) /\
+  ~ AbsBlind (GStyle XQ) (GIn XQ) (LayoutOutput XQ) (GLay XQ) grid_alg g_visible_absolute gout_eq glay_eq.
+Proof. exact grid_alg_abs_blind_refuted. Qed.
+
+(* the complement.  `lrel ab a b`: a = b, or both in the class `ab` with the same grid_row and grid_column *)
+Theorem C06_grid_algorithm_abs_blind_lines :
+  forall (T : Type) (N : Num T),
+    (forall (ab : GStyle T -> bool), (forall s, ab s = true -> g_visible_absolute s = true) ->
+       forall s st st' i, Forall2 (lrel ab) st st' ->
+         ABis (GIn T) (LayoutOutput T) (GLay T) gout_eq glay_eq (abmask (GStyle T) ab st) (grid_alg s st i) (grid_alg s st' i)) /\
+    (forall r c, AbsBlind (GStyle T) (GIn T) (LayoutOutput T) (GLay T) grid_alg (ab_lines r c) gout_eq glay_eq) /\
+    (forall r c (s : GStyle T), ab_lines r c s = true <-> g_visible_absolute s = true /\ gs_row s = r /\ gs_column s = c).
+Proof.
+  intros T N. split; [intros ab Hab s st st' i Hr; apply grid_alg_abs_bis; assumption|]. split; [apply grid_alg_abs_blind_lines|].
+  intros r c s. unfold ab_lines. rewrite !andb_true_iff. split.
+  - intros [[A B] C]. split; [exact A|]. split; apply ln_eqb_eq; assumption.
+  - intros (A & <- & <-). rewrite !ln_eqb_refl. repeat split. exact A.
+Qed.
+
+(* engines made of grid containers (sel s = true) and leaves: two trees that coincide up to content_size outside the subtrees of
+   box-generating absolute nodes on the lines (r, c) stay so through any pair of evaluations, and every node that is not itself such a
+   node returns the same output up to content_size *)
+Theorem C06_grid_engine_instance :
+  forall (T : Type) (N : Num T) (sel : GStyle T -> bool) (leaf : GStyle T -> GIn T -> LayoutOutput T) (r c : PB.Ln PB.GP)
+         (mode : GIn T -> Engine.RunMode) (in_eqb : GIn T -> GIn T -> bool) (is_none : GStyle T -> bool)
+         (hidden_out : LayoutOutput T) (zero_lay : GLay T),
+    let algo := grid_leaf_algo sel leaf in
+    forall f f' t t' i o t1 o' t1',
+      asim (GStyle T) (GIn T) (LayoutOutput T) (GLay T) (ab_lines r c) gout_eq glay_eq t t' ->
+      memo (GStyle T) (GIn T) (LayoutOutput T) (GLay T) mode in_eqb is_none hidden_out zero_lay algo f t i = Some (o, t1) ->
+      memo (GStyle T) (GIn T) (LayoutOutput T) (GLay T) mode in_eqb is_none hidden_out zero_lay algo f' t' i = Some (o', t1') ->
+      asim (GStyle T) (GIn T) (LayoutOutput T) (GLay T) (ab_lines r c) gout_eq glay_eq t1 t1' /\
+      (ab_lines r c (style_of (GStyle T) (GIn T) (LayoutOutput T) (GLay T) t) = false -> gout_eq o o').
+Proof.
+  intros T N sel leaf r c mode in_eqb is_none hidden_out zero_lay algo f f' t t' i o t1 o' t1' Hs E E'.
+  eapply (C06_abs_blind_engine (GStyle T) (GIn T) (LayoutOutput T) (GLay T) mode in_eqb is_none hidden_out zero_lay algo
+            (ab_lines r c) gout_eq glay_eq); eauto.
+  - apply gout_eq_refl.
+  - apply glay_eq_refl.
+  - apply grid_leaf_algo_abs_blind_lines.
+Qed.
+
+(* ---------------------------------------------------------------------------------------------- keyed by the grid lines: all node kinds *)
+From TV Require Proofs.EngineAbsKey.
+
+(* the engine theorem with a KEY: `key s` is what a parent may read of an out-of-flow child's style.  AbsBlindK: on child-style lists that
+   agree except at out-of-flow positions, where both sides are out of flow and have the same key, the resumptions are ABis-bisimilar.
+   asim (keyed): the trees coincide up to oeq / leq outside the subtrees of out-of-flow nodes, whose keys agree.  With a constant key this
+   is C06_abs_blind_engine; AbsBlind implies AbsBlindK for every key. *)
+Theorem C06_abs_blind_engine_keyed :
+  forall (S In Out Lay K : Type) (mode : In -> Engine.RunMode) (in_eqb : In -> In -> bool) (is_none : S -> bool)
+         (hidden_out : Out) (zero_lay : Lay) (algo : S -> list S -> In -> Alg In Out Lay)
+         (ab : S -> bool) (key : S -> K) (oeq : Out -> Out -> Prop) (leq : Lay -> Lay -> Prop),
+    (forall o, oeq o o) -> (forall l, leq l l) ->
+    (EngineAbsKey.AbsBlindK S In Out Lay algo ab K key oeq leq ->
+     forall f f' t t' i o t1 o' t1',
+       EngineAbsKey.asim S In Out Lay ab K key oeq leq t t' ->
+       memo S In Out Lay mode in_eqb is_none hidden_out zero_lay algo f t i = Some (o, t1) ->
+       memo S In Out Lay mode in_eqb is_none hidden_out zero_lay algo f' t' i = Some (o', t1') ->
+       EngineAbsKey.asim S In Out Lay ab K key oeq leq t1 t1' /\ (ab (style_of S In Out Lay t) = false -> oeq o o')) /\
+    (AbsBlind S In Out Lay algo ab oeq leq -> EngineAbsKey.AbsBlindK S In Out Lay algo ab K key oeq leq) /\
+    (forall t, EngineAbsKey.asim S In Out Lay ab K key oeq leq t t) /\
+    (* read pointwise: along a path without out-of-flow nodes both trees have a node, same style, leq stored layouts *)
+    (forall p t t' u, EngineAbsKey.asim S In Out Lay ab K key oeq leq t t' -> EngineAbsKey.in_flow_path S In Out Lay ab t p ->
+       subtree S In Out Lay t p = Some u ->
+       exists u', subtree S In Out Lay t' p = Some u' /\ leq (lay_of S In Out Lay u) (lay_of S In Out Lay u') /\
+                  style_of S In Out Lay u' = style_of S In Out Lay u).
+Proof.
+  intros S In Out Lay K mode in_eqb is_none hidden_out zero_lay algo ab key oeq leq Ho Hl. split; [|split; [|split]].
+  - intros HB f f' t t' i o t1 o' t1' H E E'.
+    eapply (EngineAbsKey.memo_asimK S In Out Lay mode in_eqb is_none hidden_out zero_lay algo ab K key oeq leq Ho Hl HB f f'); eauto.
+  - apply EngineAbsKey.AbsBlind_K.
+  - intros t. apply EngineAbsKey.asim_refl; assumption.
+  - intros p t t' u. apply EngineAbsKey.asim_at.
+Qed.
+
+(* the grid algorithm: AbsBlindK for ab = box-generating and position:absolute (ALL of them), key = (grid_row, grid_column) *)
+Theorem C06_grid_algorithm_abs_blind_keyed :
+  forall (T : Type) (N : Num T),
+    EngineAbsKey.AbsBlindK (GStyle T) (GIn T) (LayoutOutput T) (GLay T) grid_alg g_visible_absolute (PB.Ln PB.GP * PB.Ln PB.GP) g_lines gout_eq glay_eq.
+Proof. intros T N. apply grid_alg_abs_blind_keyed. Qed.
+
+(* engines made of block, flex and grid containers and leaves -- every kind of node TaffyView::compute_child_layout dispatches on: two trees
+   that coincide up to content_size outside the subtrees of box-generating absolute nodes, THESE NODES HAVING THE SAME grid_row / grid_column on
+   both sides, stay so through any pair of evaluations, and every node that is not itself such a node returns the same output up to
+   content_size.  (Only a grid parent reads the lines; the premise on them is what the known finding C06/grid-estimate-absolute costs.) *)
+Theorem C06_taffy_engine_instance :
+  forall (T : Type) (N : Num T) (is_grid : TStyle T -> bool) (kind : BFStyle T -> NodeKind) (pre : BStyle T -> BIn T -> BIn T)
+         (abs_child : @AbsChild T) (leaf : BFStyle T -> FIn T -> LayoutOutput T)
+         (mode : FIn T -> Engine.RunMode) (in_eqb : FIn T -> FIn T -> bool) (is_none : TStyle T -> bool)
+         (hidden_out : LayoutOutput T) (zero_lay : FLay T),
+    AbsChildLocal abs_child ->
+    let algo := taffy_algo is_grid kind pre abs_child leaf in
+    forall f f' t t' i o t1 o' t1',
+      EngineAbsKey.asim (TStyle T) (FIn T) (LayoutOutput T) (FLay T) t_visible_absolute _ t_lines fout_eq flay_eq t t' ->
+      memo (TStyle T) (FIn T) (LayoutOutput T) (FLay T) mode in_eqb is_none hidden_out zero_lay algo f t i = Some (o, t1) ->
+      memo (TStyle T) (FIn T) (LayoutOutput T) (FLay T) mode in_eqb is_none hidden_out zero_lay algo f' t' i = Some (o', t1') ->
+      EngineAbsKey.asim (TStyle T) (FIn T) (LayoutOutput T) (FLay T) t_visible_absolute _ t_lines fout_eq flay_eq t1 t1' /\
+      (t_visible_absolute (style_of (TStyle T) (FIn T) (LayoutOutput T) (FLay T) t) = false -> fout_eq o o').
+Proof.
+  intros T N is_grid kind pre abs_child leaf mode in_eqb is_none hidden_out zero_lay Hloc algo f f' t t' i o t1 o' t1' Hs E E'.
+  eapply (EngineAbsKey.memo_asimK (TStyle T) (FIn T) (LayoutOutput T) (FLay T) mode in_eqb is_none hidden_out zero_lay algo
+            t_visible_absolute _ t_lines fout_eq flay_eq); eauto.
+  - apply fout_eq_refl.
+  - apply flay_eq_refl.
+  - apply taffy_algo_abs_blind_keyed. exact Hloc.
+Qed.
+
 Print Assumptions C06_grid_never_placed.
 Print Assumptions C06_grid_estimate_absolute_refuted.
 Print Assumptions C06_grid_estimate_absolute_refuted_sibling.
@@ -628,3 +771,9 @@ Print Assumptions C06_block_resumption_query_inputs.
 Print Assumptions C06_flex_algorithm_abs_blind.
 Print Assumptions C06_blockflex_engine_instance.
 Print Assumptions C06_bl_algorithm_abs_blind.
+Print Assumptions C06_grid_algorithm_abs_blind_refuted.
+Print Assumptions C06_grid_algorithm_abs_blind_lines.
+Print Assumptions C06_grid_engine_instance.
+Print Assumptions C06_abs_blind_engine_keyed.
+Print Assumptions C06_grid_algorithm_abs_blind_keyed.
+Print Assumptions C06_taffy_engine_instance.
